@@ -430,6 +430,27 @@ def diffASAACLs (e : Env) (st : St) (aN bN : Name) (rs : List Range) : St :=
   let ops := NA.Acl.planASA (encodeCells cells mkeys)
   ops.foldl (emitOp e aN al bl cells) st
 
+def cellOld : MCell → Bool | .ins _ => false | _ => true
+def cellNew : MCell → Bool | .del _ => false | _ => true
+def cellKeep : MCell → Bool | .keep _ _ => true | _ => false
+
+/-- Pairwise different printed texts among the cells selected by `sel` (decidable form). -/
+def distinctOnB (cells : List MCell) (mkeys : List String) (sel : MCell → Bool) : Bool :=
+  (List.range cells.length).all fun i => (List.range cells.length).all fun j =>
+    i == j || !(sel (cells.getD i default) && sel (cells.getD j default) && mkeys.getD i "" == mkeys.getD j "")
+
+/-- Ghost (only counted): do the decidable hypotheses of the convergence theorem `acl_pair_converges`
+hold for this call of `diffASAACLs`?  (Some kept line keeps its references; printed texts modulo log are
+pairwise different on the device side and on the target side when the plan is made.) -/
+def planCheck (e : Env) (st : St) (aN bN : Name) (rs : List Range) : String :=
+  let al := e.aLines aN
+  let bl := e.bLines bN
+  let (st1, cells) := cellsPhase e al bl rs (earlyFind e bl rs st) []
+  let mkeys := (cells.map (cellRLine st1 al bl)).map (·.mkey)
+  if !(cells.any cellKeep) then "hyp:no-kept-line"
+  else if !(distinctOnB cells mkeys cellOld && distinctOnB cells mkeys cellNew) then "hyp:duplicate-text"
+  else "hyp:ok"
+
 /-- `diffCmds(aRef, bRef, byParsedCmd)` for two access lists; returns the name to be referenced. -/
 def diffAcl (e : Env) (st : St) (aN bN : Name) : St × Name :=
   if st.aNeeded.contains aN then
@@ -443,7 +464,7 @@ def diffAcl (e : Env) (st : St) (aN bN : Name) : St × Name :=
       let st := transferAcl e st bN
       (st, st.aNameOf bN)
     else
-      let st := { st with aName := (bN, aN) :: st.aName }.hit "acl:incremental"
+      let st := ({ st with aName := (bN, aN) :: st.aName }.hit "acl:incremental").hit (planCheck e st aN bN rs)
       let st := diffASAACLs e st aN bN rs
       ({ st with aNeeded := addSet aN st.aNeeded, aReady := addSet bN st.aReady }, aN)
 
@@ -536,10 +557,10 @@ def diffRoutes (st : St) (al bl : List Route) : St :=
 
 /-! ## `checkASAInterfaces` -/
 
-/-- Index of the device access-group command stored for interface `n` in `aIntf2cmd`
-(the last one in file order). -/
-def lastBindOf (binds : List Bind) (n : Name) : Option Nat :=
-  (List.range binds.length).reverse.find? fun i => (binds.getD i default).intf == n
+/-- Indices of the device access-group commands stored for interface `n` in `aIntf2cmd`
+(all of them, in file order). -/
+def bindsOf (binds : List Bind) (n : Name) : List Nat :=
+  (List.range binds.length).filter fun i => (binds.getD i default).intf == n
 
 /-- `markNeeded` of one access-group command: the command, its ACL, the groups of the ACL. -/
 def markNeededBind (e : Env) (st : St) (i : Nat) : St :=
@@ -552,7 +573,7 @@ in the compared list; `none`: "Interface … from Netspoc not known on device". 
 def checkInterfaces (e : Env) (st : St) : Option (St × List Nat) :=
   let bIntf := e.b.binds.map (·.intf)
   let unknown := e.a.intfs.filter fun n => !bIntf.contains n
-  let unmanaged := (unknown.filterMap (lastBindOf e.a.binds)).eraseDups
+  let unmanaged := (unknown.flatMap (bindsOf e.a.binds)).eraseDups
   let st := unmanaged.foldl (fun st i => (markNeededBind e st i).hit "intf:unmanaged-binding") st
   let aKnown := e.a.binds.map (·.intf) ++ e.a.intfs
   if bIntf.all aKnown.contains then
